@@ -506,9 +506,10 @@ def step_access(R):
     st0 = ir.StructureType(collections.OrderedDict([("a", T("i")), ("b", T("f"))]), name="S")
     VT = collections.OrderedDict([("int", T("i")), ("float", T("f")), ("int[2]", ir.ArrayType(T("i"), [2])), ("int[2][2]", ir.ArrayType(T("i"), [2, 2])), ("struct", st0), ("float3", vec("f", 3)), ("float3x3", mat(3))])
     for scope, (tl, vt) in itertools.product(SCOPES, VT.items()):
-        # The value goals are IDENTITY goals for every type of value: a STORE binds the very object it is given and a LOAD yields the very
-        # object that is bound.  Load-after-store forwarding (IR.opt.las) replaces the loaded value by the stored one, and arrays / structs
-        # are updated in place by STORE_ARRAY / STORE_MEMBER, so a copy made by either arm would make optimised and unoptimised code differ.
+        # A LOAD yields the very object that is bound (element / member writes go through the loaded object and must reach the variable).
+        # A STORE gives the variable the stored VALUE; for arrays and structures -- which STORE_ARRAY / STORE_MEMBER update in place -- the
+        # variable must not share a container with the source.  (Load-after-store forwarding must then leave aggregate loads alone:
+        # IR.opt.las.aggregates.)
         def run_load(ctx, scope=scope, vt=vt):
             h = Harness({"p0": vt, "p1": vt}, globals_={"g": None, "h": None})
             var = {"GLOBAL": "g", "FUNCTION_ARGUMENT": 1, "FUNCTION_LOCAL": "x"}[scope]
@@ -545,8 +546,19 @@ def step_access(R):
             else:
                 got = h.post["localScope"].get("x")
                 fr = frame_goals(h, writes_local=["x"])
-            return [("value", z3.BoolVal(got is v), f"STORE {scope}: binds the object it is given"),
-                    ("source-register-intact", z3.BoolVal(h.post["localScope"].get(src.Reference) is v))] + fr
+            from .programs_c import _eqv
+            mutable = vt.Kind in (ir.TypeKind.Array, ir.TypeKind.Structure)
+            if not isinstance(v, (list, dict)):
+                vg = ("value", z3.BoolVal(got is v), f"STORE {scope}: binds the value it is given")
+            else:
+                vg = ("value", _eqv(got, v), f"STORE {scope}: the variable holds a value equal to the stored one")
+            goals = [vg, ("source-register-intact", z3.BoolVal(h.post["localScope"].get(src.Reference) is v))]
+            if mutable:
+                # arrays and structures are updated IN PLACE (STORE_ARRAY / STORE_MEMBER): two variables must never share such a container,
+                # or a write through one is a write to the other (`r = ga; r[0] = x;` would change the global ga -- C15, C12)
+                shared = set(irsem.mutable_ids(got, vt)) & set(irsem.mutable_ids(v, vt))
+                goals.append(("no-sharing-with-the-source", z3.BoolVal(not shared), "the variable shares an array / struct object with the value it was assigned from"))
+            return goals + fr
 
         for producer in (PRODUCERS if tl in ("int[2]", "float3") else ("decl",)):
             lab = scope if tl == "int" else f"{scope},{tl}"
@@ -589,6 +601,28 @@ def step_access(R):
 
     verify(R, "VM.step.STORE_ARRAY", EXEC, run_sa)
 
+    # element / member stores of an AGGREGATE value (`t[i] = row;`, `o.inner = s;`): the slot gets the value, and shares no array / struct
+    # object with the source (a later write through either must not reach the other)
+    def run_sa_agg(ctx):
+        from .programs_c import _eqv
+        h = Harness({"p": T("i")})
+        at, rt = ir.ArrayType(T("i"), [2, 2]), ir.ArrayType(T("i"), [2])
+        arr, idx, src = h.value(at), h.value(T("i")), h.value(rt)
+        ins = ir.ArrayAccessInstruction(rt, arr, idx)
+        ins.SetStore(src)
+        h.add(ins)
+        a, row = sym_of(ctx, at, "a"), sym_of(ctx, rt, "row")
+        i = ctx.int("i")
+        ctx.assume(i >= 0)
+        ctx.assume(i < 2)
+        h.start([0], {arr: a, idx: i, src: row}, ins)
+        h.step()
+        conj = [z3.If(i.t == j, _eqv(a[j], row), z3.BoolVal(True)) for j in range(2)]
+        shared = set(irsem.mutable_ids(a, at)) & set(irsem.mutable_ids(row, rt))
+        return [("value", z3.And(*conj)), ("no-sharing-with-the-source", z3.BoolVal(not shared), "the array slot shares the row object with the value it was assigned from")]
+
+    verify(R, "VM.step.STORE_ARRAY", EXEC, run_sa_agg, label="row-of-int[2][2]")
+
     # struct members
     st = ir.StructureType(collections.OrderedDict([("a", T("i")), ("b", T("f"))]), name="S")
 
@@ -617,6 +651,22 @@ def step_access(R):
         return [("in-place-update", z3.BoolVal(s["b"] is v and s["a"] is olda and list(s) == ["a", "b"]))] + frame_goals(h, mutates=[s])
 
     verify(R, "VM.step.STORE_MEMBER", EXEC, run_sm)
+
+    def run_sm_agg(ctx):
+        from .programs_c import _eqv
+        outer = ir.StructureType(collections.OrderedDict([("inner", st), ("k", T("i"))]), name="Outer")
+        h = Harness({"p": T("i")})
+        sv, src = h.value(outer), h.value(st)
+        ins = ir.MemberAccessInstruction(st, sv, "inner")
+        ins.SetStore(src)
+        h.add(ins)
+        o, v = sym_of(ctx, outer, "o"), sym_of(ctx, st, "v")
+        h.start([0], {sv: o, src: v}, ins)
+        h.step()
+        shared = set(irsem.mutable_ids(o, outer)) & set(irsem.mutable_ids(v, st))
+        return [("value", _eqv(o["inner"], v)), ("no-sharing-with-the-source", z3.BoolVal(not shared), "the member shares the struct object with the value it was assigned from")]
+
+    verify(R, "VM.step.STORE_MEMBER", EXEC, run_sm_agg, label="struct-member")
 
     # branches: two further blocks; the step must continue at the first instruction of the target block
     for cond in ("unconditional", "conditional", "no-predicate-with-false-block"):
@@ -795,6 +845,80 @@ def step_call(R):
                 """)
 
         verify(R, "VM.step.CALL", EXEC, run, replay, label=f"{n}-args")
+
+    # Aggregate arguments are passed BY VALUE: whatever the callee does to its parameter -- including in-place element / member writes, which
+    # is how STORE_ARRAY and STORE_MEMBER work -- is invisible to the caller (C03: "the caller's parameters and locals hold exactly the values
+    # they held before the call").  The callee stub therefore mutates every container it receives in place.
+    st = ir.StructureType(collections.OrderedDict([("a", T("i")), ("b", T("f"))]), name="S")
+    st2 = ir.StructureType(collections.OrderedDict([("inner", st), ("arr", ir.ArrayType(T("i"), [2]))]), name="Outer")
+    for tl, vt in (("int[2]", ir.ArrayType(T("i"), [2])), ("int[2][2]", ir.ArrayType(T("i"), [2, 2])), ("struct", st), ("struct-nested", st2)):
+        # (vectors and matrices are not in this list: no instruction writes into one in place -- VECTOR_SET / MATRIX_SET copy -- so sharing
+        # them between caller and callee is unobservable; E2E programs `call.vector-arg` cover them end to end)
+        def run_agg(ctx, vt=vt):
+            h = Harness({"p0": T("i")})
+            v0, v1 = h.value(vt), h.value(T("i"))
+            ins = h.add(ir.CallInstruction(T("i"), "callee", [v0, v1]))
+            val = sym_of(ctx, vt, "v")
+            k = ctx.int("k")
+            res = ctx.int("result")
+            got = []
+
+            def scribble(o):
+                if isinstance(o, list):
+                    for i, x in enumerate(o):
+                        if isinstance(x, (list, dict)):
+                            scribble(x)
+                        else:
+                            o[i] = 424242
+                elif isinstance(o, dict):
+                    for kk, x in list(o.items()):
+                        if isinstance(x, (list, dict)):
+                            scribble(x)
+                        else:
+                            o[kk] = 424242
+
+            def stub(name, lst):
+                got.append(_deep_copy_terms(lst[0]))
+                scribble(lst[0])
+                return res
+
+            h.ctx._Invoke = stub
+            before = _deep_copy_terms(val)
+            h.start([ctx.int("a0")], {v0: val, v1: k, "alias": val}, ins)
+            h.step()
+            after = h.post["localScope"].get(v0.Reference)
+            from .programs_c import _eqv
+            goals = [("callee-gets-the-value", _eqv(got[0], before) if got else z3.BoolVal(False)),
+                     ("caller-value-unchanged", z3.And(z3.BoolVal(after is val), _eqv(val, before)), "the callee's in-place writes to its parameter are visible in the caller's variable"),
+                     ("result-bound", z3.BoolVal(h.post["localScope"].get(ins.Reference) is res))]
+            return goals
+
+        def replay_agg(model, clause):
+            return script("""
+                import io, contextlib
+                from nsl import Compiler, LinearIR, VM
+                src = ("struct S { int a; int b; }\\n"
+                       "function g(S s) -> int { s.a = 100; return (s.a + s.b); }\\n"
+                       "function h(int[2] t) -> int { t[0] = 100; return (t[0] + t[1]); }\\n"
+                       "export function f(int x) -> int { S s; s.a = x; s.b = 2; int[2] t; t[0] = x; t[1] = 2; int r = (g(s) + h(t)); return (((r * 10000) + (s.a * 100)) + t[0]); }")
+                with contextlib.redirect_stdout(io.StringIO()):
+                    r = Compiler.Compiler().Compile(src)
+                l = LinearIR.Linker(); l.AddModule(r.IRModule)
+                got = VM.VirtualMachine(l.Link()).Invoke('f', x=3)
+                print(src); print('f(x=3) =', got, '; s.a and t[0] of the caller must still be 3 after the calls: expected 2040303')
+                if got != 2040303: print('REPLAY-CONFIRMED')
+                """)
+
+        verify(R, "VM.step.CALL.by-value", EXEC, run_agg, replay_agg, label=tl)
+
+
+def _deep_copy_terms(v):
+    """structural copy of a VM value (containers copied, leaves shared)"""
+    if isinstance(v, list):
+        return [_deep_copy_terms(x) for x in v]
+    if isinstance(v, dict):
+        return {k: _deep_copy_terms(x) for k, x in v.items()}
+    return v
 
 
 def _instance_types():
